@@ -1154,7 +1154,8 @@ class Executor:
 
     # ---- interleaving exploration -------------------------------------------------------------
     VISIBLE_LOCK = ("Mutex::lock", "RwLock::read", "RwLock::write")
-    VISIBLE_IO = ("fs::rename", "rename", "fs::remove_file", "remove_file", "File::open", "fs::read", "CasManager::read_blob_range")
+    VISIBLE_IO = ("fs::rename", "rename", "fs::remove_file", "remove_file", "File::open", "fs::read", "CasManager::read_blob_range",
+                  "fs::metadata", "metadata", "Path::metadata", "Path::exists", "Path::try_exists", "fs::exists")
 
     def visible_op(self, st, callee, args):
         """('lock', name, mode) / ('io',) when the call touches state other threads can see"""
